@@ -41,19 +41,22 @@ class C15(Property):
     thorough_cases = 5000
     design_ref = "DESIGN.md §6/C15"
     level_text = ("Unbounded Rocq theorems over the model of core/hash/consistenthash.go (keys, ring, nodes; Add/"
-                  "AddWithReplicas/AddWithWeight/Remove/Get transcribed, the hash function a parameter): for every "
-                  "hash function and history, Get never fails, returns none iff no node has a virtual node, and "
-                  "otherwise a value of a node currently in the ring; a removed node is never returned. For every "
-                  "hash that is injective on (node, index) pairs: the assignment is a function of the final node -> "
-                  "(replicas, value) map only (history independence), and an operation on node n moves a key only "
-                  "to or from n (add / remove / re-add with another weight). Tied to the source by differential "
-                  "execution of generated histories through the public API with murmur3 and with a small-range hash.")
+                  "AddWithReplicas/AddWithWeight/Remove/Get transcribed, the hash function a parameter). For every "
+                  "hash function and history: the ring invariant (sorted keys, one key per ring entry), Get never "
+                  "fails, returns none iff the ring is empty and otherwise a value of a node in the node set; a "
+                  "removed node is never returned. For every hash that is injective on (node, index) pairs of the "
+                  "universe of nodes in use and every history: keys, buckets and Get are a function of the final "
+                  "node -> (replicas, value) map only (history independence; Get = owner of the cyclic successor of "
+                  "the key's hash among the live virtual-node hashes), and any operation on node n moves a key only "
+                  "to or from n (add new / remove / re-add with another weight). Tied to the source by differential "
+                  "execution of generated histories through the public API with murmur3 and a small-range hash.")
     level_note = ("Trusted: Coq kernel + vm_compute; hand-written model; virtual-node and probe hashes are computed by "
-                  "the harness with the same Func and lang.Repr; correspondence only on generated histories. Remove is "
-                  "modelled with the repair pending/C15-remove-foreign-keys.diff (the pinned algorithm is refuted in "
-                  "Pinned.v). With colliding virtual nodes (ambiguous repr+index strings such as node1/node11) the "
-                  "choice inside a bucket depends on insertion order: the history/disruption theorems carry the "
-                  "collision_free hypothesis and are checked on collision-free universes only.")
+                  "the harness with the same Func and lang.Repr and renumbered by rank; correspondence only on "
+                  "generated histories. Remove is modelled as repaired by 18b2068 (the pinned algorithm is refuted in "
+                  "Pinned.v). Known finding collision-bucket-insertion-order: with colliding virtual nodes (ambiguous "
+                  "repr+index strings such as node1/node11) the choice inside a bucket depends on insertion order; the "
+                  "history/disruption theorems carry collision_free_on, Pinned.bucket_order_refuted is the witness, "
+                  "and two strict corpus histories exhibit it on every run (KNOWN-FINDING).")
     rule = ("histories of 6..22 Add/AddWithReplicas/AddWithWeight/Remove over 2..6 nodes (strings, ints, int64, Stringers, "
             "pointer Stringers, equal reprs), replicas/weights from {<0, 0, 1, .., R, >R}, h.replicas 100/120/150, 20 probe "
             "keys read after every op; 50% murmur3 + collision-free names, 20% murmur3 + ambiguous names (node1/node11), "
@@ -92,6 +95,10 @@ class C15(Property):
             # makes prop_ok evaluate the order clauses although the universe has collisions.
             {"hash": "murmur", "mod": 0, "r": 0, "nodes": [S("node1"), S("node11")], "strict": True,
              "ops": [["add", 0], ["add", 1], ["remove", 0], ["remove", 1], ["add", 1], ["add", 0]], "probes": P},
+            # the same finding with a 7-slot hash: a third node joining the shared slots moves keys between the
+            # two others (bucket index = innerhash % 2 becomes % 3)
+            {"hash": "small", "mod": 7, "r": 0, "nodes": [S("alpha"), S("beta"), S("gamma")], "strict": True,
+             "ops": [["add", 0], ["add", 1], ["add", 2], ["remove", 2], ["remove", 0], ["add", 0]], "probes": P},
             # equal reprs replace each other; zero replicas; > max
             {"hash": "murmur", "mod": 0, "r": 120, "nodes": [I(7), S("7"), ST("7"), S("alpha")],
              "ops": [["add", 0], ["add", 3], ["addr", 1, 5], ["addw", 2, 150], ["addr", 3, 0], ["remove", 0], ["remove", 3]],
